@@ -167,8 +167,9 @@ def _nameless_type(t):
     return q
 
 
-def skeleton(fn):
-    """(hash of the name-free serialisation of the function, [local names in order of declaration])"""
+def skeleton(fn, abstract=()):
+    """(hash of the name-free serialisation of the function, [local names in order of declaration]); references to the
+    names in `abstract` (file-local statics) are serialised without their name"""
     import hashlib
     decls = _local_decls(fn)
     index = {d['id']: i for i, d in enumerate(decls)}
@@ -188,6 +189,8 @@ def skeleton(fn):
             rd = n.get('referencedDecl') or {}
             if rd.get('id') in index:
                 h.update(('|L%d' % index[rd['id']]).encode())
+            elif rd.get('name') in abstract:
+                h.update(b'|S')
             else:
                 h.update(('|G%s' % rd.get('name')).encode())
         elif k == 'UnaryExprOrTypeTraitExpr':
@@ -202,6 +205,106 @@ def skeleton(fn):
     return h.hexdigest(), [d.get('name') for d in decls]
 
 
+def skeleton_tokens(fn, abstract=()):
+    """name-free token sequence of a function (16-bit hashes), for similarity matching of renamed-and-touched statics"""
+    import zlib
+    decls = _local_decls(fn)
+    index = {d['id']: i for i, d in enumerate(decls)}
+    out = []
+
+    def ser(n):
+        k = n.get('kind')
+        item = [str(k)]
+        for key in ('opcode', 'value'):
+            if key in n:
+                item.append(str(n[key]))
+        if k == 'MemberExpr':
+            item.append('.' + str(n.get('name')))
+        elif k == 'DeclRefExpr':
+            rd = n.get('referencedDecl') or {}
+            if rd.get('id') in index:
+                item.append('L')
+            elif rd.get('name') in abstract:
+                item.append('S')
+            else:
+                item.append('G' + str(rd.get('name')))
+        if k not in ('ImplicitCastExpr', 'ParenExpr'):
+            out.append(zlib.crc32('|'.join(item).encode()) & 0xffff)
+        for c in n.get('inner', []) or []:
+            if isinstance(c, dict) and c.get('kind') not in ('FullComment', 'ParagraphComment', 'TextComment'):
+                ser(c)
+    ser(fn)
+    return out
+
+
+def file_statics(tu):
+    """({static function name: node}, {static global name: node}) defined in the TU's own file"""
+    fs = {n: f for n, f in tu.funcs.items() if f.get('storageClass') == 'static' and basename(f.get('_locfile') or f.get('_file')) == tu.cfile}
+    gs = {n: g for n, g in tu.globals.items() if g.get('storageClass') == 'static' and basename(g.get('_locfile') or g.get('_file')) == tu.cfile}
+    return fs, gs
+
+
+def statics_signature(tu):
+    """{'funcs': {name: hash}, 'globals': {name: hash}} with the names of the file's statics abstracted"""
+    fs, gs = file_statics(tu)
+    names = set(fs) | set(gs)
+    return {'funcs': {n: skeleton(f, names)[0] for n, f in fs.items()}, 'globals': {n: skeleton(g, names)[0] for n, g in gs.items()},
+            'tokens': {n: skeleton_tokens(f, names) for n, f in fs.items()}}
+
+
+def _rename_statics(tu, ref):
+    """a file-local function or table that was merely renamed (same body up to the names of the file's statics and of its
+    locals) is given its reference name again, everywhere in the translation unit"""
+    st = ref.get('__statics__')
+    if not st:
+        return
+    cur = statics_signature(tu)
+    mapping = {}
+    for kind in ('funcs', 'globals'):
+        missing = {n: h for n, h in st[kind].items() if n not in cur[kind]}
+        extra = {n: h for n, h in cur[kind].items() if n not in st[kind]}
+        for rn, rh in missing.items():
+            cands = [n for n, h in extra.items() if h == rh and n not in mapping]
+            if len(cands) == 1 and sum(1 for h in missing.values() if h == rh) == 1:
+                mapping[cands[0]] = rn
+    # statics that were renamed and lightly touched (a parameter renamed, a loop counter's type changed): pair the remaining
+    # vanished and new static functions by the similarity of their name-free token sequences (unique best match >= 0.8)
+    missing = [n for n in st['funcs'] if n not in cur['funcs'] and n not in mapping.values()]
+    extra = [n for n in cur['funcs'] if n not in st['funcs'] and n not in mapping]
+    if missing and extra and st.get('tokens'):
+        import difflib
+        fs_, gs_ = file_statics(tu)
+        names_ = set(fs_) | set(gs_)
+        cur_tok = {n: skeleton_tokens(fs_[n], names_) for n in extra}
+        for rn in missing:
+            rt = st['tokens'].get(rn)
+            if not rt:
+                continue
+            scored = sorted(((difflib.SequenceMatcher(None, rt, cur_tok[n], autojunk=False).ratio(), n) for n in extra if n not in mapping), reverse=True)
+            if scored and scored[0][0] >= 0.8 and (len(scored) == 1 or scored[1][0] < scored[0][0] - 0.1):
+                mapping[scored[0][1]] = rn
+    if not mapping:
+        return
+    for table in (tu.funcs, tu.protos, tu.globals, tu.global_decls):
+        for old, newn in mapping.items():
+            if old in table:
+                table[newn] = table.pop(old)
+    for n in tu.decls:
+        stack = [n]
+        while stack:
+            x = stack.pop()
+            if isinstance(x, dict):
+                if x.get('kind') in ('FunctionDecl', 'VarDecl') and x.get('name') in mapping:
+                    x['name'] = mapping[x['name']]
+                rd = x.get('referencedDecl')
+                if isinstance(rd, dict) and rd.get('name') in mapping and rd.get('kind') in ('FunctionDecl', 'VarDecl'):
+                    rd['name'] = mapping[rd['name']]
+                inner = x.get('inner')
+                if inner:
+                    stack.extend(inner)
+    tu.static_renames = mapping
+
+
 def alpha_normalise(tu):
     global _refnames
     if _refnames is None:
@@ -213,13 +316,24 @@ def alpha_normalise(tu):
     ref = _refnames.get(tu.cfile) or {}
     if not ref:
         return
+    _rename_statics(tu, ref)
     for name, fn in tu.funcs.items():
         r = ref.get(name)
         if not r or basename(fn.get('_locfile') or fn.get('_file')) != tu.cfile:
             continue
         hsh, names = skeleton(fn)
-        if hsh != r['skeleton'] or names == r['names'] or len(names) != len(r['names']):
+        if names == r['names'] or len(names) != len(r['names']):
             continue
+        if hsh != r['skeleton']:
+            # not alpha-equivalent: renamed locals plus a light touch (a counter's type, a re-ordered statement). With the same
+            # number of declarations in the same order and a nearly identical name-free token sequence the declarations
+            # still correspond one to one
+            rt = r.get('tokens')
+            if not rt:
+                continue
+            import difflib
+            if difflib.SequenceMatcher(None, rt, skeleton_tokens(fn), autojunk=False).ratio() < 0.9:
+                continue
         decls = _local_decls(fn)
         new = {d['id']: nm for d, nm in zip(decls, r['names'])}
         for d in decls:
